@@ -16,8 +16,8 @@ sys.path.insert(0, os.path.dirname(os.path.dirname(os.path.abspath(__file__))))
 import vlib
 
 HARNESS = os.path.join(vlib.VERIF, "harness", "race")
-QUICK = ["loud", "loud-dup", "loud-flood", "loud-flood-slowinit", "silent", "silent-dup-flood", "loud-api"]
-THOROUGH = QUICK + ["loud-dup-flood", "silent-dup", "silent-flood", "silent-api", "loud-dup-api"]
+QUICK = ["loud", "loud-dup", "loud-flood", "loud-flood-slowinit", "silent", "silent-dup-flood", "loud-api", "silent-api"]
+THOROUGH = QUICK + ["loud-dup-flood", "silent-dup", "silent-flood", "loud-dup-api"]
 
 
 def translator():
@@ -107,7 +107,12 @@ def run_detector(exe, scenarios, seed, outdir, tag):
     out = os.path.join(outdir, "race_%s.jsonl" % tag)
     env = dict(vlib.GOENV, GORACE="exitcode=0 halt_on_error=0")
     env.pop("VERIF_RACE_LOG", None)
-    rc, so, se = vlib.sh([exe, "-seed", str(seed), "-scenarios", ",".join(scenarios), "-out", out], env=env, timeout=1500)
+    import subprocess
+    try:
+        rc, so, se = vlib.sh([exe, "-seed", str(seed), "-scenarios", ",".join(scenarios), "-out", out], env=env,
+                             timeout=60 + 25 * len(scenarios))
+    except subprocess.TimeoutExpired as e:
+        rc, se = -9, "TIMEOUT of the harness run\n" + ((e.stderr or b"").decode("utf-8", "replace") if isinstance(e.stderr, bytes) else (e.stderr or ""))
     with open(os.path.join(outdir, "race_%s.stderr" % tag), "w") as f:
         f.write(se)
     rows = vlib.read_jsonl(out) if os.path.exists(out) else []
@@ -200,7 +205,7 @@ def run(pid, tier, seed):
     exe, blog, rebuilt = build_race()
     det = dict(binary=os.path.basename(exe) if exe else None, rebuilt=rebuilt, runs=0, scenario_runs=0, reports=0,
                by_class=dict(unprotected=0, protected=0, unmapped=0), known_reproduced=[], results=[])
-    good_runs = set()
+    good_runs, complete, incomplete = set(), set(), []
     if exe is None:
         chk.violation("go_build.txt", "harness/race does not build with -race against /repo:\n" + blog[-4000:], no_input=True)
     else:
@@ -217,12 +222,20 @@ def run(pid, tier, seed):
                 chk.violation("detector_run_%d.txt" % sd, "harness/race -seed %d -scenarios %s ended with exit code %d after %s "
                               "(a panic of the code under test ends the run):\n%s" % (sd, ",".join(scenarios), rc, sorted(done), se[-6000:]))
             for r in rows:
+                if r.get("stuck"):
+                    det["stuck_deliveries"] = det.get("stuck_deliveries", 0) + r["stuck"]
+                    chk.notes.append("seed %d scenario %s: %d dispatcher goroutine(s) stayed blocked inside HandleMessage after the session "
+                                     "(not a data race; liveness of the dispatch path belongs to C11/C14)" % (sd, r["scenario"], r["stuck"]))
                 honest = r["scenario"] in ("loud", "silent", "loud-api", "silent-api")
                 if r["keygen_ok"] > 0 or r["sign_ok"] > 0:
                     good_runs.add(r["scenario"])
-                if honest and (r["keygen_ok"] != 3 or r["sign_ok"] != r["sign_runs"] or r["verified"] != r["sign_runs"]):
-                    chk.violation("harness_%s_%d.txt" % (r["scenario"], sd), "fault-free full-stack run did not complete: %s" % json.dumps(r),
-                                  no_input=True)
+                if honest:
+                    mode = r["scenario"].split("-")[0]
+                    if r["keygen_ok"] == 3 and r["sign_runs"] > 0 and r["sign_ok"] == r["sign_runs"] == r["verified"]:
+                        complete.add(mode)
+                    else:   # not a race: liveness of fault-free sessions belongs to C01/C07/C11; recorded, and see below
+                        incomplete.append(dict(seed=sd, **r))
+                        chk.notes.append("seed %d: fault-free scenario %s did not complete every session: %s" % (sd, r["scenario"], json.dumps(r)))
             for r in parse_reports(se):
                 det["reports"] += 1
                 nrep += 1
@@ -240,6 +253,11 @@ def run(pid, tier, seed):
                     chk.violation("race_%d.txt" % nrep, head + "NOT a pair the access table leaves unprotected: " + why + "\n\n" + r["text"] + "\n")
                     chk.violation("correspondence_%d.txt" % nrep, "broken correspondence between the access table (tools/gen_lockset.py) and "
                                   "the race detector: " + why + "\nsee race_%d.txt" % nrep, no_input=True)
+        for mode in ("loud", "silent"):
+            if mode not in complete:
+                chk.violation("harness_%s.txt" % mode, "no fault-free %s-mode run completed key generation and all signing sessions in this "
+                              "check: the detector runs do not cover the full stack\n%s" % (mode, json.dumps(incomplete, indent=1)), no_input=True)
+        det["incomplete_fault_free_runs"] = len(incomplete)
     # ---- evidence
     need = {l: r["lock"] for l, r in rep.items() if r["ok"] and r["lock"]}
     chk.cov["table_size"] = len(table)
